@@ -8,12 +8,14 @@ Property theorems only.  Machine model: `Model.MCode` (S5).  Validator:
 `Model.RA.check` / `Model.RA.checkSpillStep`.  Helper lemmas: `Proofs.RA`.
 
 Reading guide.  `p` is the instruction list the allocator coloured; `A` carries the
-colouring, the alias table, the set of deleted (coalesced) moves and a claimed liveness
-annotation.  `vrun` runs `p` on virtual registers (independent variables); `prun` runs
-it on physical registers through the colouring, where every register write leaves
-arbitrary junk (`Js`) in all overlapping registers and every clobber does the same.
-`S : Sem Val σ` is an arbitrary interpretation of the opaque instructions as functions
-of their declared uses and of the memory state; all theorems quantify over it.
+colouring, the alias table, the list of fixed (precoloured) register names, the set of
+deleted (coalesced) moves and a claimed liveness annotation.  `vrun` runs `p` on virtual
+registers (independent variables; fixed registers already behave like the physical
+registers they are); `prun` runs it on physical registers through the colouring, where
+every register write leaves arbitrary junk (`Js`) in all overlapping registers and every
+clobber does the same.  `S : Sem Val σ` is an arbitrary interpretation of the opaque
+instructions as functions of their declared uses and of the memory state; all theorems
+quantify over it, over `Js`, over the initial state and over the number of steps.
 -/
 namespace Props.C06
 open Model.MCode Model.RA Proofs.RA
@@ -28,8 +30,8 @@ theorem alloc_sound (p : Program) (A : Alloc) (h : check p A = true)
     (s : VState Val σ) (t : PState Val σ)
     (hpc : s.pc = t.pc) (hst : s.st = t.st)
     (hregs : ∀ v ∈ A.live s.pc, t.regs (A.colour v) = s.regs v) :
-    let s' := vrun S p n s
-    let t' := prun S A.alias A.colour A.removed Js p n t
+    let s' := vrun S A.model Js p n s
+    let t' := prun S A.model A.removed Js p n t
     s'.pc = t'.pc ∧ s'.st = t'.st ∧ ∀ v ∈ A.live s'.pc, t'.regs (A.colour v) = s'.regs v :=
   run_rel S A Js p (check_sound p A h) n s t ⟨hpc, hst, hregs⟩
 
@@ -47,8 +49,8 @@ theorem entry_state_exists (p : Program) (A : Alloc) (h : check p A = true)
 theorem reads_agree (p : Program) (A : Alloc) (h : check p A = true)
     {Val σ : Type} (S : Sem Val σ) (Js : Nat → PReg → Val) (R : VReg → Val) (P : PReg → Val) (st : σ)
     (hentry : ∀ v ∈ A.live 0, P (A.colour v) = R v) (n : Nat) :
-    let s := vrun S p n ⟨0, R, st⟩
-    let t := prun S A.alias A.colour A.removed Js p n ⟨0, P, st⟩
+    let s := vrun S A.model Js p n ⟨0, R, st⟩
+    let t := prun S A.model A.removed Js p n ⟨0, P, st⟩
     t.pc = s.pc ∧ t.st = s.st ∧
     ∀ ins, p[s.pc]? = some ins → ins.uses.map (fun v => t.regs (A.colour v)) = ins.uses.map s.regs := by
   have hc := check_sound p A h
@@ -57,18 +59,20 @@ theorem reads_agree (p : Program) (A : Alloc) (h : check p A = true)
   exact args_agree A p _ _ ins (hc.instr _ ins hi) hr
 
 /-- **Sentence 2 of C06.**  In every execution from the function entry, two values that
-    are live at the same program point occupy overlapping physical registers only if it
-    is the identical register and the two values are equal (copies of each other). -/
+    are live at the same program point — not both of them fixed physical registers of the
+    input program — occupy overlapping physical registers only if it is the identical
+    register and the two values are equal (copies of each other). -/
 theorem shared_register_means_copies (p : Program) (A : Alloc) (h : check p A = true)
-    {Val σ : Type} (S : Sem Val σ) (R : VReg → Val) (st : σ) (n : Nat) :
-    let s := vrun S p n ⟨0, R, st⟩
-    ∀ v ∈ A.live s.pc, ∀ w ∈ A.live s.pc, ov A.alias (A.colour v) (A.colour w) = true →
+    {Val σ : Type} (S : Sem Val σ) (Js : Nat → PReg → Val) (R : VReg → Val) (st : σ) (n : Nat) :
+    let s := vrun S A.model Js p n ⟨0, R, st⟩
+    ∀ v ∈ A.live s.pc, ∀ w ∈ A.live s.pc, ¬ (A.isFixed v = true ∧ A.isFixed w = true) →
+      ov A.alias (A.colour v) (A.colour w) = true →
       A.colour v = A.colour w ∧ s.regs v = s.regs w := by
-  intro s v hv w hw ho
+  intro s v hv w hw hnf ho
   have hc := check_sound p A h
-  have hcol := live_share_static p A hc s.pc (vrun_reach S p R st n) v hv w hw ho
+  have hcol := live_share_static p A hc s.pc (vrun_reach S A.model p R st n Js) v hv w hw hnf ho
   refine ⟨hcol, ?_⟩
-  have hr := run_rel S A (fun _ _ => R 0) p hc n (⟨0, R, st⟩ : VState Val σ) ⟨0, entryRegs A R, st⟩
+  have hr := run_rel S A Js p hc n (⟨0, R, st⟩ : VState Val σ) ⟨0, entryRegs A R, st⟩
     (entry_rel A p hc R st)
   have h1 := hr.2.2 v hv
   have h2 := hr.2.2 w hw
@@ -100,7 +104,7 @@ def exLive : Nat → List VReg := fun i => [[], [0], [0, 1], [2, 1], [2, 1], [2,
 def exAlias : PReg → PReg → Bool := fun p q => p == 0 && q == 1
 
 /-- a = rbx, b = rcx, t = rbx; the move at 2 is deleted -/
-def exGood : Alloc := { colour := fun v => [2, 3, 2].getD v 0, alias := exAlias, removed := (· == 2), live := exLive }
+def exGood : Alloc := { colour := fun v => [2, 3, 2].getD v 0, alias := exAlias, fixed := [], removed := (· == 2), live := exLive }
 /-- b = eax: the call's clobber of rax destroys it -/
 def exBad : Alloc := { exGood with colour := fun v => [2, 1, 2].getD v 0 }
 /-- liveness that forgets that b is live across the call is not accepted -/
@@ -119,10 +123,24 @@ def exSem : Sem Nat Unit := {
   st := fun _ _ u => u
   br := fun _ _ _ => 1 }
 
-example : (vrun exSem exProg 6 ⟨0, fun _ => 0, ()⟩).regs 2 = 12 := by decide +kernel
-example : (prun exSem exBad.alias exBad.colour exBad.removed (fun _ _ => 99) exProg 6 ⟨0, fun _ => 0, ()⟩).regs 2 = 106 := by
+example : (vrun exSem exGood.model (fun _ _ => 99) exProg 6 ⟨0, fun _ => 0, ()⟩).regs 2 = 12 := by decide +kernel
+example : (prun exSem exBad.model exBad.removed (fun _ _ => 99) exProg 6 ⟨0, fun _ => 0, ()⟩).regs 2 = 104 := by
   decide +kernel
-example : (prun exSem exGood.alias exGood.colour exGood.removed (fun _ _ => 99) exProg 6 ⟨0, fun _ => 0, ()⟩).regs 2 = 12 := by
+example : (prun exSem exGood.model exGood.removed (fun _ _ => 99) exProg 6 ⟨0, fun _ => 0, ()⟩).regs 2 = 12 := by
   decide +kernel
+
+/-! Fixed registers (AVR-like): names 3 = `r1`, 4 = `r1:r0` are physical registers 5 and 6
+    that overlap; the input program defines `r1:r0` while `r1` stays live.  That conflict
+    belongs to the input, the validator accepts it (both machines havoc `r1` alike) … -/
+def fxProg : Program := [
+  { uses := [3], defs := [4], clobbers := [], isMove := false, jumps := [], label := none, sem := 0 },
+  { uses := [4], defs := [0], clobbers := [], isMove := false, jumps := [], label := none, sem := 1 },
+  { uses := [0, 3], defs := [], clobbers := [], isMove := false, jumps := [], label := none, sem := 2 }]
+def fxAlloc (c0 : PReg) : Alloc := {
+  colour := fun v => [c0, 0, 0, 5, 6].getD v 0, alias := fun p q => p == 5 && q == 6, fixed := [3, 4],
+  removed := fun _ => false, live := fun i => [[3], [3, 4], [0, 3]].getD i [] }
+example : check fxProg (fxAlloc 2) = true := by decide +kernel
+/-- … but a virtual register must not be put where it overlaps the live fixed `r1` -/
+example : check fxProg (fxAlloc 6) = false := by decide +kernel
 
 end Props.C06
